@@ -146,7 +146,7 @@ class Gen:
                 return ('neg', atom)
             return atom
         roll = self.rng.random()
-        if allow_calls and roll < 0.12:
+        if allow_calls and not self.in_matrix and roll < 0.12:       # (a call may `get`, which moves the name register)
             fns = [n for n, r in self.routines.items() if r['ret'] == 'num' and (cls == 'A' or r['cls'] == 'E')
                    and n != self.in_routine]
             if fns:
@@ -286,6 +286,8 @@ class Gen:
                 self.no_growth = self.loop_depth > 0 or scope.in_routine
                 e = self.num_expr(scope, cls, 2)
                 self.no_growth = False
+        if self.nest > 0 and self.regs[reg] == 'A':
+            cls = 'A'            # a setting made in a block that may not run cannot make the register exact again
         self.regs[reg] = cls
         if self.nest == 0 and not scope.in_routine:
             self.written.add(reg)
